@@ -138,7 +138,7 @@ impl<'g, 'a, 'b> Deriver<'g, 'a, 'b> {
     }
 
     fn char_in(&mut self, a: char, b: char) -> char {
-        let (lo, hi) = (a as u32, b as u32);
+        let (lo, hi) = if a <= b { (a as u32, b as u32) } else { (b as u32, a as u32) };
         let k = self.src.weighted(&[3, 3, 2, 4]);
         let v = match k {
             0 => lo,
@@ -248,7 +248,12 @@ impl<'g, 'a, 'b> Deriver<'g, 'a, 'b> {
                     }
                     CharPart::Class(n) => {
                         let n = n.clone();
-                        self.rule(&n, depth + 1)
+                        if n == "char" {
+                            let c = self.any_char();
+                            self.out.push(c);
+                        } else {
+                            self.rule(&n, depth + 1)
+                        }
                     }
                 }
             }
